@@ -1,4 +1,5 @@
 import TsVerif.C06.Props
+import TsVerif.C06.NodeNav
 /-!
 # C06 — cursor walk theorems (second Props file of C06)
 
@@ -39,11 +40,23 @@ Clause "cursor moves first child / next sibling are consistent with the single o
   `goto_previous_sibling` succeeds iff `earlierSiblings` ≠ [] and shows its LAST element
   (`earlierSiblings` = what precedes the node in its raw parent, preceded by what precedes each
   hidden ancestor).
+* `gotoPreviousSibling_preserves_inv` — the repaired goto_previous_sibling keeps `CursorInv`.
+* `goto_descendant_spec` (with `gdScan_spec`, `vdc_eq_descBefore`, `gdDescend_spec`, `ascend_spec`) — on a
+  cursor with the invariant whose root subtree contains the visible node number `goal`, the port of
+  `ts_tree_cursor_goto_descendant(goal)` ends on a VISIBLE entry with descendant index `goal` and
+  keeps the invariant (the descent picks, at each level, the first child whose cumulative visible
+  count passes the goal; the cached `visible_descendant_count` is that total).
+* `field_name_for_child_spec` (with `enumF`, `flattenKids_fields`, `fn_go_spec`) — the port of
+  `ts_node_field_name_for_child` = `chainField` of the chain `flatten` records for that child, under
+  `hiddenExtraOK` (hidden extras have no visible children; evaluated on every real tree).
+  `child_by_field_id` stays OPEN: it follows the `inherited` entries of the field map, whose
+  agreement with the hidden rule's own entries is a property of the generated TABLES, not of the
+  runtime (judged on every node against the chains).
 * supporting: `iterNext_some/none` (the forward iterator step in closed form), `firstGo_spec`,
   `scanSiblings_eq`, `enumKids_head`, `sibling_internal_spec`.
 
 Together with `child_spec` these give: a walk by goto_first_child / goto_next_sibling visits the
-children of a node in the order of `enumChildren`.  OPEN: preservation of `CursorInv` by goto_previous_sibling, goto_descendant (descent by descendant index),
+children of a node in the order of `enumChildren`.  OPEN:
 parent_spec / next_sibling_spec / prev_sibling_spec for the position-based node.c searches
 (false on the unchanged code for zero-width nodes: would be `_partial`).
 -/
@@ -1809,6 +1822,611 @@ theorem cursor_prev_sibling_spec (lang : Lang) (c : Cursor) (hok : StackOK lang 
       split
       · exact key _ rfl rfl
       · exact key e rfl rfl
+
+end TsVerif.C06
+
+namespace TsVerif.C06
+
+/-- Every entry the backward scan of the repaired iterator returns satisfies the entry invariant. -/
+theorem prevScan_entry_ok (lang : Lang) (base : Nat) : ∀ (fuel : Nat) (it : Iter), IterOK lang base it →
+    it.childIndex < it.parent.kids.length → it.parent.kids.length ≤ u32max →
+    ∀ e, (scanSiblings (iterPrev lang Quirks.none) fuel it).2 = some e → EntryOK lang it.parent base e
+  | 0, _, _, _, _, e, h => by simp [scanSiblings] at h
+  | fuel + 1, it, hok, hlt, hn, e, h => by
+    have hget : it.parent.kids[it.childIndex]? = some (it.parent.kids[it.childIndex]) := by simp [hlt]
+    unfold scanSiblings at h
+    rw [iterPrev_some lang it _ hok.1 hget hn] at h
+    simp only at h
+    split at h
+    · simp only [Option.some.injEq] at h; rw [← h]; exact entryOf_ok lang base it _ hok hget
+    · split at h
+      · simp only [Option.some.injEq] at h; rw [← h]; exact entryOf_ok lang base it _ hok hget
+      · by_cases hz : it.childIndex = 0
+        · have hcu : (prevIter lang it (it.parent.kids[it.childIndex])).childIndex = u32max := by
+            rw [prevIter_childIndex]; unfold prevIndex; simp [hz]
+          rw [scanPrev_none lang _ _ hcu] at h
+          simp at h
+        · have hok' := prevIter_ok lang base it (it.parent.kids[it.childIndex]) hok (by omega) hlt hn
+          have hci : (prevIter lang it (it.parent.kids[it.childIndex])).childIndex = it.childIndex - 1 := by
+            rw [prevIter_childIndex]; unfold prevIndex
+            have : (it.childIndex == 0) = false := by simp only [beq_eq_false_iff_ne, ne_eq]; omega
+            simp [this]
+          have := prevScan_entry_ok lang base fuel _ hok' (by rw [hci, prevIter_parent]; omega)
+            (by rw [prevIter_parent]; exact hn) e h
+          rwa [prevIter_parent] at this
+
+theorem prev_internal_preserves_inv (lang : Lang) (initialSize : Nat) : ∀ (stack : List Entry),
+    CursorInv lang stack → (∀ e ∈ stack, e.t.kids.length ≤ u32max) →
+    (gotoSiblingInternal lang (iterPrev lang Quirks.none) initialSize stack).1 ≠ Step.none →
+    CursorInv lang (gotoSiblingInternal lang (iterPrev lang Quirks.none) initialSize stack).2
+  | [], h, _, _ => by simp [CursorInv] at h
+  | [e], _, _, hne => by simp [gotoSiblingInternal] at hne
+  | entry :: parent :: rest, h, hsmall, hne => by
+    obtain ⟨hent, hrest⟩ := h
+    obtain ⟨hchild, hsi, hd⟩ := hent
+    have hnp : parent.t.kids.length ≤ u32max := hsmall parent (by simp)
+    have hkne : parent.t.kids.isEmpty = false := by
+      cases hk : parent.t.kids with
+      | nil => rw [hk] at hchild; simp at hchild
+      | cons a b => rfl
+    have hit0 := iterateChildren_ok lang parent rest.head? hkne
+    have hpar := iterateChildren_parent lang parent rest.head?
+    have hit : IterOK lang (parent.descIdx + (if isEntryVisible lang parent rest.head? then 1 else 0))
+        { valid := (iterateChildren lang parent rest.head?).valid, parent := (iterateChildren lang parent rest.head?).parent, pos := entry.pos, childIndex := entry.childIndex, si := entry.si, descIdx := entry.descIdx } := by
+      refine ⟨hit0.1, ?_, ?_⟩
+      · simp only [hpar]; exact hsi
+      · simp only [hpar]; exact hd
+    have hc' : ({ valid := (iterateChildren lang parent rest.head?).valid, parent := (iterateChildren lang parent rest.head?).parent, pos := entry.pos, childIndex := entry.childIndex, si := entry.si, descIdx := entry.descIdx } : Iter).parent.kids[({ valid := (iterateChildren lang parent rest.head?).valid, parent := (iterateChildren lang parent rest.head?).parent, pos := entry.pos, childIndex := entry.childIndex, si := entry.si, descIdx := entry.descIdx } : Iter).childIndex]? = some entry.t := by
+      simp only [hpar]; exact hchild
+    have hpar' : ({ valid := (iterateChildren lang parent rest.head?).valid, parent := (iterateChildren lang parent rest.head?).parent, pos := entry.pos, childIndex := entry.childIndex, si := entry.si, descIdx := entry.descIdx } : Iter).parent = parent.t := hpar
+    have hci' : ({ valid := (iterateChildren lang parent rest.head?).valid, parent := (iterateChildren lang parent rest.head?).parent, pos := entry.pos, childIndex := entry.childIndex, si := entry.si, descIdx := entry.descIdx } : Iter).childIndex = entry.childIndex := rfl
+    unfold gotoSiblingInternal at hne ⊢
+    dsimp only at hne ⊢
+    generalize ({ valid := (iterateChildren lang parent rest.head?).valid, parent := (iterateChildren lang parent rest.head?).parent, pos := entry.pos, childIndex := entry.childIndex, si := entry.si, descIdx := entry.descIdx } : Iter) = itx at hit hc' hpar' hci' hne ⊢
+    rw [iterPrev_some lang itx entry.t hit.1 hc' (by rw [hpar']; exact hnp)] at hne ⊢
+    dsimp only at hne ⊢
+    have hrec := prev_internal_preserves_inv lang initialSize (parent :: rest) hrest
+      (fun e he => hsmall e (List.mem_cons_of_mem _ he))
+    by_cases hbr : (visOf lang itx entry.t && decide ((parent :: rest).length + 1 < initialSize)) = true
+    · rw [if_pos hbr] at hne; exact absurd rfl hne
+    · rw [if_neg hbr] at hne ⊢
+      have hlt := lt_of_getElem?_some _ _ _ hchild
+      -- entries of the backward scan are OK
+      have hentry : ∀ e, (scanSiblings (iterPrev lang Quirks.none) (parent.t.kids.length + 2) (prevIter lang itx entry.t)).2 = some e →
+          EntryOK lang parent.t (parent.descIdx + (if isEntryVisible lang parent rest.head? then 1 else 0)) e := by
+        intro e he
+        by_cases hz : entry.childIndex = 0
+        · have hcu : (prevIter lang itx entry.t).childIndex = u32max := by
+            rw [prevIter_childIndex]; unfold prevIndex; simp [hci', hz]
+          rw [scanPrev_none lang _ _ hcu] at he
+          simp at he
+        · have hok1 := prevIter_ok lang _ itx entry.t hit (by omega) (by rw [hpar', hci']; exact hlt) (by rw [hpar']; exact hnp)
+          have hcj : (prevIter lang itx entry.t).childIndex = entry.childIndex - 1 := by
+            rw [prevIter_childIndex]; unfold prevIndex
+            have : (entry.childIndex == 0) = false := by simp only [beq_eq_false_iff_ne, ne_eq]; omega
+            simp [hci', this]
+          have := prevScan_entry_ok lang _ (parent.t.kids.length + 2) _ hok1
+            (by rw [hcj, prevIter_parent, hpar']; omega) (by rw [prevIter_parent, hpar']; exact hnp) e he
+          rwa [prevIter_parent, hpar'] at this
+      generalize scanSiblings (iterPrev lang Quirks.none) (parent.t.kids.length + 2) (prevIter lang itx entry.t) = r at hentry hne ⊢
+      obtain ⟨step, eo⟩ := r
+      cases step <;> cases eo
+      all_goals first
+        | exact hrec hne
+        | exact ⟨hentry _ rfl, hrest⟩
+
+/-- `gotoPreviousSibling_preserves_inv`: the repaired `goto_previous_sibling` keeps the stack
+invariant (the position repair only touches `pos`; a hidden step is followed by goto_last_child). -/
+theorem gotoPreviousSibling_preserves_inv (lang : Lang) (c : Cursor) (h : CursorInv lang c.stack)
+    (hsmall : ∀ e ∈ c.stack, e.t.kids.length ≤ u32max) :
+    CursorInv lang (gotoPreviousSibling lang Quirks.none c).2.stack := by
+  unfold gotoPreviousSibling
+  have hs := prev_internal_preserves_inv lang c.stack.length c.stack h hsmall
+  generalize hr : gotoSiblingInternal lang (iterPrev lang Quirks.none) c.stack.length c.stack = r at hs
+  obtain ⟨step, st⟩ := r
+  have posfix : ∀ (st : List Entry), CursorInv lang st →
+      CursorInv lang (match st with
+        | top :: parent :: rest =>
+          if length_is_undefined top.pos then { top with pos := recomputePosition parent top.childIndex } :: parent :: rest
+          else st
+        | _ => st) := by
+    intro st hst
+    cases st with
+    | nil => exact hst
+    | cons top r1 =>
+      cases r1 with
+      | nil => exact hst
+      | cons parent rest =>
+        simp only
+        split
+        · exact ⟨hst.1, hst.2⟩
+        · exact hst
+  cases step with
+  | none => simpa using h
+  | visible =>
+    simp only [show (Step.visible == Step.hidden) = false from rfl, Bool.false_eq_true, if_false]
+    exact posfix st (hs (by simp))
+  | hidden =>
+    simp only [show (Step.hidden == Step.hidden) = true from rfl, if_true]
+    exact gotoChild_preserves_inv lang true _ _ (posfix st (hs (by simp)))
+
+/-- The entry's subtree contains the visible node with preorder index `goal`. -/
+def Contains (lang : Lang) (goal : Nat) (e : Entry) (p? : Option Entry) : Prop :=
+  e.descIdx ≤ goal ∧ goal < e.descIdx + (if isEntryVisible lang e p? then 1 else 0) + vdc e.t
+
+theorem drop_cons_of_getElem? {α : Type} (l : List α) (i : Nat) (c : α) (h : l[i]? = some c) :
+    l.drop i = c :: l.drop (i + 1) := drop_eq_cons l i c h
+
+/-- `goto_descendant`'s scan: among the remaining children the first whose cumulative count passes
+the goal contains the goal. -/
+theorem gdScan_spec (lang : Lang) (goal base : Nat) : ∀ (fuel : Nat) (it : Iter), IterOK lang base it →
+    it.descIdx ≤ goal →
+    goal < it.descIdx + descBefore lang it.parent.data.productionId (it.parent.kids.drop it.childIndex) it.si →
+    it.parent.kids.length - it.childIndex < fuel →
+    ∃ e vis, gotoDescendant.scan lang goal fuel it = some (e, vis) ∧ EntryOK lang it.parent base e ∧
+      vis = (e.t.data.visible || (!e.t.data.extra && lang.aliasAt it.parent.data.productionId e.si != 0)) ∧
+      e.descIdx ≤ goal ∧ goal < e.descIdx + (if vis then 1 else 0) + vdc e.t
+  | 0, it, _, _, _, hf => by omega
+  | fuel + 1, it, hok, hle, hlt, hf => by
+    cases hc : it.parent.kids[it.childIndex]? with
+    | none =>
+      rw [drop_eq_nil_of_none _ _ hc] at hlt
+      simp only [descBefore] at hlt
+      omega
+    | some c =>
+      rw [drop_cons_of_getElem? _ _ _ hc] at hlt
+      simp only [descBefore] at hlt
+      unfold gotoDescendant.scan
+      rw [iterNext_some lang it c hok.1 hc]
+      simp only
+      by_cases hgt : (nextIter lang it c).descIdx > goal
+      · simp only [hgt, if_true]
+        refine ⟨entryOf it c, visOf lang it c, rfl, entryOf_ok lang base it c hok hc, rfl, hle, ?_⟩
+        simp only [nextIter] at hgt
+        simp only [entryOf, visOf]
+        by_cases hb : (c.data.visible || (!c.data.extra && lang.aliasAt it.parent.data.productionId it.si != 0)) = true
+        · simp only [hb, ↓reduceIte] at hgt ⊢; omega
+        · simp only [hb, ↓reduceIte] at hgt ⊢; omega
+      · simp only [hgt, if_false]
+        have hlen := lt_of_getElem?_some _ _ _ hc
+        have ih := gdScan_spec lang goal base fuel (nextIter lang it c) (nextIter_ok lang base it c hok hc)
+          (by
+            simp only [nextIter] at hgt ⊢
+            omega)
+          (by
+            simp only [nextIter_parent, nextIter_childIndex, nextIter_si]
+            simp only [nextIter] at hgt ⊢
+            by_cases hb : (c.data.visible || (!c.data.extra && lang.aliasAt it.parent.data.productionId it.si != 0)) = true
+            · simp only [hb, ↓reduceIte] at hgt hlt ⊢; omega
+            · simp only [hb, ↓reduceIte] at hgt hlt ⊢; omega)
+          (by simp only [nextIter_parent, nextIter_childIndex]; omega)
+        simpa [nextIter_parent] using ih
+
+
+/-- What one child adds to the parent's `visible_descendant_count` is what the cursor's iterator adds
+to its descendant index while passing it. -/
+theorem childCounts_desc (lang : Lang) (pid si : Nat) (c : Tree) (ps : Option Nat)
+    (hs : Summarized lang c) (hsh : shapeOK ps c = true) :
+    (childCounts lang pid si c).2.2 =
+      vdc c + (if (c.data.visible || (!c.data.extra && lang.aliasAt pid si != 0)) then 1 else 0) := by
+  obtain ⟨cd, ck⟩ := c
+  unfold Summarized at hs
+  unfold shapeOK at hsh
+  simp only [Bool.and_eq_true, Bool.or_eq_true, bne_iff_ne, ne_eq] at hsh
+  have hend : cd.symbol = 0 → cd.extra = true := by
+    intro h0
+    rcases hsh.1.2 with h | h
+    · exact absurd h0 h
+    · exact h
+  have hleaf : ck = [] → cd.visibleDescendantCount = 0 := fun h => (hs.1 h).2.2.2
+  unfold childCounts aliasedAt vdc
+  simp only [Tree.data, Tree.kids]
+  by_cases hx : cd.extra = true
+  · by_cases hv : cd.visible = true
+    · cases ck with
+      | nil => simp [hx, hv, hleaf rfl]
+      | cons a b => simp [hx, hv]
+    · cases ck with
+      | nil => simp [hx, hv, hleaf rfl]
+      | cons a b => simp [hx, hv]
+  · have hs0 : cd.symbol ≠ 0 := fun h => hx (hend h)
+    by_cases ha : lang.aliasAt pid si = 0
+    · by_cases hv : cd.visible = true
+      · cases ck with
+        | nil => simp [hx, hv, ha, hleaf rfl]
+        | cons a b => simp [hx, hv, ha]
+      · cases ck with
+        | nil => simp [hx, hv, ha, hleaf rfl]
+        | cons a b => simp [hx, hv, ha]
+    · cases ck with
+      | nil => simp [hx, ha, hs0, hleaf rfl]
+      | cons a b => simp [hx, ha, hs0]
+
+theorem sumSI_desc (lang : Lang) (pid : Nat) : ∀ (kids : List Tree) (si : Nat) (ps : Option Nat),
+    SummarizedL lang kids → shapeOKL ps kids = true →
+    sumSI (fun si c => (childCounts lang pid si c).2.2) kids si = descBefore lang pid kids si
+  | [], _, _, _, _ => rfl
+  | c :: rest, si, ps, hs, hsh => by
+    unfold SummarizedL at hs
+    unfold shapeOKL at hsh
+    simp only [Bool.and_eq_true] at hsh
+    simp only [sumSI, descBefore]
+    rw [childCounts_desc lang pid si c ps hs.1 hsh.1, sumSI_desc lang pid rest _ ps hs.2 hsh.2]
+
+/-- In a summarized inner node the cached `visible_descendant_count` is the total the cursor's
+iterator accumulates over all children. -/
+theorem vdc_eq_descBefore (lang : Lang) (t : Tree) (ps : Option Nat) (hs : Summarized lang t) (hsh : shapeOK ps t = true) :
+    vdc t = descBefore lang t.data.productionId t.kids 0 := by
+  obtain ⟨d, kids⟩ := t
+  unfold Summarized at hs
+  unfold shapeOK at hsh
+  simp only [Bool.and_eq_true] at hsh
+  unfold vdc
+  simp only [Tree.kids, Tree.data]
+  cases hk : kids with
+  | nil => simp [descBefore]
+  | cons c rest =>
+    have hne : kids ≠ [] := by simp [hk]
+    have hn := hs.2.1 hne
+    have hc := (summarize_counts_eq lang length_zero d kids).2.2
+    rw [← hk]
+    have : kids.isEmpty = false := by simp [hk]
+    simp only [this, Bool.false_eq_true, if_false]
+    rw [hn.2.2.2.2.2, hc, sumSI_desc lang d.productionId kids 0 (some d.symbol) hs.2.2 hsh.2]
+
+
+theorem mem_of_getElem? {α : Type} (l : List α) (i : Nat) (c : α) (h : l[i]? = some c) : c ∈ l :=
+  List.mem_of_getElem? h
+
+/-- The descent of `ts_tree_cursor_goto_descendant`: from an entry whose subtree contains the goal
+it ends on a VISIBLE entry whose descendant index is the goal, keeping the stack invariant. -/
+theorem gdDescend_spec (lang : Lang) (goal : Nat) : ∀ (fuel : Nat) (top : Entry) (rest : List Entry) (ps : Option Nat),
+    CursorInv lang (top :: rest) → Summarized lang top.t → shapeOK ps top.t = true →
+    Contains lang goal top rest.head? → top.t.size ≤ fuel →
+    CursorInv lang (gotoDescendant.descend lang goal fuel (top :: rest)) ∧
+    ∃ e r, gotoDescendant.descend lang goal fuel (top :: rest) = e :: r ∧ e.descIdx = goal ∧
+      isEntryVisible lang e r.head? = true
+  | 0, top, _, _, _, _, _, _, hsz => by
+    have := tree_size_pos top.t
+    omega
+  | fuel + 1, top, rest, ps, hinv, hs, hsh, hcont, hsz => by
+    obtain ⟨hle, hlt⟩ := hcont
+    unfold gotoDescendant.descend
+    simp only
+    -- the answer is `top` itself exactly when it is visible with index `goal`
+    have hself : top.descIdx + (if isEntryVisible lang top rest.head? then 1 else 0) > goal →
+        CursorInv lang (top :: rest) ∧ ∃ e r, top :: rest = e :: r ∧ e.descIdx = goal ∧ isEntryVisible lang e r.head? = true := by
+      intro hgt
+      refine ⟨hinv, top, rest, rfl, ?_, ?_⟩
+      · cases hv : isEntryVisible lang top rest.head? with
+        | true => simp only [hv, if_true] at hgt; omega
+        | false => simp only [hv, Bool.false_eq_true, if_false] at hgt; omega
+      · cases hv : isEntryVisible lang top rest.head? with
+        | true => rfl
+        | false => simp only [hv, Bool.false_eq_true, if_false] at hgt; omega
+    by_cases hempty : top.t.kids.isEmpty = true
+    · -- a leaf: `vdc = 0`, so it is the goal itself
+      have hvdc : vdc top.t = 0 := by simp [vdc, hempty]
+      rw [hvdc] at hlt
+      have hit : (iterateChildren lang top rest.head?) = { valid := false, parent := top.t, pos := length_zero, childIndex := 0, si := 0, descIdx := 0 } := by
+        unfold iterateChildren; simp [hempty]
+      rw [hit]
+      simp only
+      by_cases hg : 0 > goal
+      · omega
+      · simp only [hg, if_false]
+        have : gotoDescendant.scan lang goal (top.t.kids.length + 1) { valid := false, parent := top.t, pos := length_zero, childIndex := 0, si := 0, descIdx := 0 } = none := by
+          unfold gotoDescendant.scan iterNext
+          simp
+        rw [this]
+        exact hself (by omega)
+    · have hne : top.t.kids.isEmpty = false := by simpa using hempty
+      have hitok := iterateChildren_ok lang top rest.head? hne
+      have hpar := iterateChildren_parent lang top rest.head?
+      have hdi : (iterateChildren lang top rest.head?).descIdx = top.descIdx + (if isEntryVisible lang top rest.head? then 1 else 0) := by
+        unfold iterateChildren; simp [hne]
+      have hci : (iterateChildren lang top rest.head?).childIndex = 0 := by unfold iterateChildren; simp [hne]
+      have hsi0 : (iterateChildren lang top rest.head?).si = 0 := by unfold iterateChildren; simp [hne]
+      by_cases hgt : (iterateChildren lang top rest.head?).descIdx > goal
+      · simp only [hgt, if_true]
+        exact hself (by rw [← hdi]; exact hgt)
+      · simp only [hgt, if_false]
+        have htot := vdc_eq_descBefore lang top.t ps hs hsh
+        obtain ⟨e, vis, hscan, heok, hvis, hele, helt⟩ := gdScan_spec lang goal _ (top.t.kids.length + 1) _ hitok (by omega)
+          (by rw [hpar, hci, hsi0, hdi, List.drop_zero, ← htot]; omega)
+          (by rw [hpar, hci]; omega)
+        rw [hpar] at heok hvis
+        rw [hscan]
+        simp only
+        have hev : isEntryVisible lang e (some top) = vis := by
+          rw [isEntryVisible_eq, hvis]; rfl
+        by_cases hstop : (vis && e.descIdx == goal) = true
+        · simp only [hstop, if_true]
+          simp only [Bool.and_eq_true, beq_iff_eq] at hstop
+          refine ⟨⟨heok, hinv⟩, e, top :: rest, rfl, hstop.2, ?_⟩
+          simp only [List.head?_cons]
+          rw [hev]; exact hstop.1
+        · simp only [hstop, Bool.false_eq_true, if_false]
+          have hmem := mem_of_getElem? _ _ _ heok.1
+          have hsumm : SummarizedL lang top.t.kids ∧ shapeOKL (some top.t.data.symbol) top.t.kids = true := by
+            cases hpt : top.t with
+            | mk pd pk =>
+              rw [hpt] at hs hsh
+              unfold Summarized at hs
+              unfold shapeOK at hsh
+              simp only [Bool.and_eq_true] at hsh
+              exact ⟨hs.2.2, hsh.2⟩
+          have hsz' : e.t.size ≤ fuel := by
+            have := sizeList_mem top.t.kids e.t hmem
+            cases hpt : top.t with
+            | mk pd pk =>
+              rw [hpt] at hsz this
+              unfold Tree.size at hsz
+              simp only [kids_mk] at this
+              omega
+          exact gdDescend_spec lang goal fuel e (top :: rest) (some top.t.data.symbol) ⟨heok, hinv⟩
+            (summarized_of_mem lang _ e.t hsumm.1 hmem) (shapeOK_of_mem _ _ e.t hsumm.2 hmem)
+            ⟨hele, by simp only [List.head?_cons, hev]; exact helt⟩ hsz'
+
+
+/-- The cursor's root subtree contains the goal. -/
+def bottomContains (lang : Lang) (goal : Nat) : List Entry → Prop
+  | [] => False
+  | [e] => Contains lang goal e none
+  | _ :: p :: rest => bottomContains lang goal (p :: rest)
+
+theorem stackOK_tail (lang : Lang) (e : Entry) (rest : List Entry) (h : StackOK lang (e :: rest)) : StackOK lang rest := by
+  unfold StackOK at h; exact h.2.2.2
+
+theorem ascend_spec (lang : Lang) (goal : Nat) : ∀ (stack : List Entry), CursorInv lang stack → StackOK lang stack →
+    bottomContains lang goal stack →
+    CursorInv lang (gotoDescendant.ascend lang goal stack) ∧ StackOK lang (gotoDescendant.ascend lang goal stack) ∧
+    ∃ e r, gotoDescendant.ascend lang goal stack = e :: r ∧ Contains lang goal e r.head?
+  | [], h, _, _ => by simp [CursorInv] at h
+  | [e], hinv, hok, hb => by
+    unfold gotoDescendant.ascend
+    simp only [List.isEmpty_nil, if_true, ite_self]
+    exact ⟨hinv, hok, e, [], rfl, hb⟩
+  | e :: p :: rest, hinv, hok, hb => by
+    unfold gotoDescendant.ascend
+    simp only
+    by_cases hc : (decide (e.descIdx ≤ goal) && decide (e.descIdx + (if isEntryVisible lang e (p :: rest).head? then 1 else 0) + vdc e.t > goal)) = true
+    · simp only [hc, if_true]
+      simp only [Bool.and_eq_true, decide_eq_true_eq] at hc
+      exact ⟨hinv, hok, e, p :: rest, rfl, hc.1, hc.2⟩
+    · simp only [hc, Bool.false_eq_true, if_false, List.isEmpty_cons]
+      exact ascend_spec lang goal (p :: rest) hinv.2 (stackOK_tail lang e _ hok) hb
+
+/-- `goto_descendant_spec`: on a cursor satisfying the invariant over summarized parser-shaped
+subtrees, whose root subtree contains the visible node with preorder index `goal`, the port of
+`ts_tree_cursor_goto_descendant(goal)` ends on a VISIBLE entry whose descendant index is `goal`,
+and the stack invariant still holds. -/
+theorem goto_descendant_spec (lang : Lang) (goal : Nat) (c : Cursor)
+    (hinv : CursorInv lang c.stack) (hok : StackOK lang c.stack) (hb : bottomContains lang goal c.stack) :
+    CursorInv lang (gotoDescendant lang goal c).stack ∧
+    ∃ e r, (gotoDescendant lang goal c).stack = e :: r ∧ e.descIdx = goal ∧ isEntryVisible lang e r.head? = true := by
+  obtain ⟨hinv', hok', e, r, hst, hcont⟩ := ascend_spec lang goal c.stack hinv hok hb
+  unfold gotoDescendant
+  simp only
+  rw [hst]
+  have hcb : (decide (e.descIdx ≤ goal) && decide (e.descIdx + (if isEntryVisible lang e r.head? then 1 else 0) + vdc e.t > goal)) = true := by
+    simp only [Bool.and_eq_true, decide_eq_true_eq]
+    exact ⟨hcont.1, hcont.2⟩
+  simp only [hcb, Bool.not_true, Bool.false_eq_true, if_false]
+  rw [hst] at hinv' hok'
+  have hok'' := hok'
+  unfold StackOK at hok''
+  obtain ⟨hs, ⟨ps, hsh⟩, _, _⟩ := hok''
+  exact gdDescend_spec lang goal (topSize (e :: r)) e r ps hinv' hs hsh hcont (by simp [topSize])
+
+end TsVerif.C06
+
+namespace TsVerif.C06
+
+mutual
+  theorem enumF_proj (lang : Lang) : ∀ (t : Tree) (outer : List (List Nat)),
+      (enumF lang t outer).map (fun x => (x.1, x.2.1)) = enumChildren lang t
+    | .mk d kids, outer => by unfold enumF enumChildren; exact enumKidsF_proj lang d.productionId kids 0 outer
+  theorem enumKidsF_proj (lang : Lang) (pid : Nat) : ∀ (kids : List Tree) (si : Nat) (outer : List (List Nat)),
+      (enumKidsF lang pid kids si outer).map (fun x => (x.1, x.2.1)) = enumKids lang pid kids si
+    | [], _, _ => by simp [enumKidsF, enumKids]
+    | c :: rest, si, outer => by
+      unfold enumKidsF enumKids
+      simp only [List.map_append]
+      rw [enumKidsF_proj lang pid rest]
+      by_cases h : (c.data.visible || (if c.data.extra then 0 else lang.aliasAt pid si) != 0) = true
+      · simp [h]
+      · simp only [h, Bool.false_eq_true, if_false]
+        rw [enumF_proj lang c]
+end
+
+mutual
+  /-- The children of a node of `flatten` carry exactly these chains (with the raw subtree and the
+  alias): `flatten`'s `fields` is the chain `enumF` computes. -/
+  theorem flattenAt_fields (lang : Lang) : ∀ (t : Tree) (pos : Length) (al id : Nat) (chain : List (List Nat)),
+      (flattenAt lang t pos al id chain).map (fun v => (v.info.raw, v.info.alias, v.info.fields)) =
+        (if t.data.visible || al != 0 then [(t, al, chain)] else enumF lang t chain)
+    | .mk d kids, pos, al, id, chain => by
+      unfold flattenAt enumF
+      simp only [Tree.data]
+      by_cases h : (d.visible || al != 0) = true
+      · simp [h, VTree.info]
+      · simp only [h, Bool.false_eq_true, if_false]
+        exact flattenKids_fields lang kids pos d.productionId 0 0 d.addr kids.length chain
+  theorem flattenKids_fields (lang : Lang) : ∀ (kids : List Tree) (cur : Length) (pid si i addr n : Nat)
+      (outer : List (List Nat)),
+      (flattenKids lang kids cur pid si i addr n outer).map (fun v => (v.info.raw, v.info.alias, v.info.fields)) =
+        enumKidsF lang pid kids si outer
+    | [], _, _, _, _, _, _, _ => by simp [flattenKids, enumKidsF]
+    | c :: rest, cur, pid, si, i, addr, n, outer => by
+      unfold flattenKids enumKidsF
+      simp only [List.map_append]
+      rw [flattenAt_fields lang c, flattenKids_fields lang rest]
+end
+
+
+theorem fieldFromLanguage_eq (lang : Lang) (n : NodeRef) (si : Nat) :
+    fieldFromLanguage lang n si = (directFields lang n.t.data.productionId si).head? := by
+  unfold fieldFromLanguage directFields
+  rw [find_eq_head_filter]
+  cases ((lang.fieldMap n.t.data.productionId).toList.filter fun m => !m.inherited && m.childIndex == si) <;> rfl
+
+theorem match_firstSome (o b : Option Nat) : (match o with | some fn => some fn | none => b) = firstSome o b := by
+  cases o <;> rfl
+
+/-- What `field_name_for_child` reports for the `i`-th entry of the chained enumeration. -/
+def fieldAt (l : List (Tree × Nat × List (List Nat))) (i : Nat) : Option Nat :=
+  (l[i]?).bind fun x => chainField x.2.2
+
+theorem fn_go_spec (lang : Lang) : ∀ (f : Nat) (result : NodeRef) (ci : Nat) (outer : List (List Nat)) (ps : Option Nat),
+    Summarized lang result.t → shapeOK ps result.t = true →
+    hiddenExtraOKKids lang result.t.kids result.t.data.productionId 0 = true → result.t.size ≤ f →
+    fieldNameForChildPort.go lang true f result ci (chainField outer) = fieldAt (enumF lang result.t outer) ci
+  | 0, result, _, _, _, _, _, _, hsz => by
+    have := tree_size_pos result.t
+    omega
+  | f + 1, result, ci, outer, ps, hs, hsh, hx, hsz => by
+    unfold fieldNameForChildPort.go
+    cases hrt : result.t with
+    | mk d kids =>
+      rw [hrt] at hs hsh hx hsz
+      unfold Summarized at hs
+      unfold shapeOK at hsh
+      simp only [Bool.and_eq_true] at hsh
+      simp only [kids_mk, data_mk] at hx
+      unfold rawChildren enumF
+      simp only [hrt, kids_mk, data_mk]
+      -- the scan over the raw children
+      have scan : ∀ (ks : List Tree) (pos : Length) (si k index : Nat), index ≤ ci →
+          SummarizedL lang ks → shapeOKL (some d.symbol) ks = true → hiddenExtraOKKids lang ks d.productionId si = true →
+          Tree.sizeList ks ≤ f →
+          fieldNameForChildPort.go.scan lang true result ci (chainField outer) f
+            (rawChildren.go lang result d.productionId kids.length ks pos si k) index =
+          fieldAt (enumKidsF lang d.productionId ks si outer) (ci - index) := by
+        intro ks
+        induction ks with
+        | nil => intro pos si k index _ _ _ _ _; simp [rawChildren.go, fieldNameForChildPort.go.scan, enumKidsF, fieldAt]
+        | cons c rest ih =>
+          intro pos si k index hidx hsk hshk hxk hszk
+          unfold SummarizedL at hsk
+          unfold shapeOKL at hshk
+          unfold hiddenExtraOKKids at hxk
+          simp only [Bool.and_eq_true] at hshk hxk
+          have hszc : c.size ≤ f := by unfold Tree.sizeList at hszk; omega
+          have hszr : Tree.sizeList rest ≤ f := by unfold Tree.sizeList at hszk; omega
+          unfold rawChildren.go fieldNameForChildPort.go.scan enumKidsF
+          simp only [NodeRef.relevant, isRelevant, if_true, NodeRef.relChildCount]
+          have hcnt := (summarize_counts lang c (some d.symbol) hsk.1 hshk.1).1
+          have hlen : (enumF lang c (if c.data.extra then [] else directFields lang d.productionId si :: outer)).length =
+              (enumChildren lang c).length := by rw [← enumF_proj lang c, List.length_map]
+          by_cases hrel : (c.data.visible || (if c.data.extra then 0 else lang.aliasAt d.productionId si) != 0) = true
+          · simp only [hrel, if_true]
+            by_cases hi : index = ci
+            · -- this child is the one asked for
+              subst hi
+              simp only [beq_self_eq_true, if_true, Nat.sub_self, fieldAt, List.cons_append, List.nil_append,
+                List.getElem?_cons_zero, Option.bind_some]
+              by_cases hex : c.data.extra = true
+              · simp [hex, chainField]
+              · have hex' : c.data.extra = false := by simpa using hex
+                simp only [hex', Bool.false_eq_true, if_false]
+                have hz : (si + 1 == 0) = false := by simp
+                simp only [hz, Bool.false_eq_true, if_false, Nat.add_sub_cancel]
+                rw [fieldFromLanguage_eq, hrt, data_mk, chainField_cons]
+                generalize (directFields lang d.productionId si).head? = o
+                cases o <;> rfl
+            · have hne : (index == ci) = false := by simpa using hi
+              simp only [hne, Bool.false_eq_true, if_false]
+              rw [ih _ _ _ (index + 1) (by omega) hsk.2 hshk.2 hxk.2 hszr]
+              simp only [fieldAt, List.cons_append, List.nil_append]
+              have : ci - index = (ci - (index + 1)) + 1 := by omega
+              rw [this, List.getElem?_cons_succ]
+          · have hrel' : (c.data.visible || (if c.data.extra then 0 else lang.aliasAt d.productionId si) != 0) = false := by simpa using hrel
+            simp only [hrel', Bool.false_eq_true, if_false]
+            have hgc : relevantChildCount c true = (enumChildren lang c).length := by
+              obtain ⟨cd, ck⟩ := c
+              cases ck with
+              | nil => simp [relevantChildCount, Tree.kids, enumChildren, enumKids]
+              | cons x xs =>
+                simp only [Tree.data] at hcnt
+                simp [relevantChildCount, Tree.kids, Tree.data, hcnt]
+            by_cases hin : ci - index < relevantChildCount c true
+            · simp only [hin, if_true]
+              -- descend into the hidden child; it is not extra (a hidden extra has no visible children)
+              have hnx : c.data.extra = false := by
+                cases hce : c.data.extra with
+                | false => rfl
+                | true =>
+                  exfalso
+                  obtain ⟨cd, ck⟩ := c
+                  have h1 := hxk.1
+                  unfold hiddenExtraOK at h1
+                  simp only [Tree.data] at hce hrel'
+                  simp only [hce, if_true] at hrel'
+                  simp only [Bool.and_eq_true, hce, Bool.true_and] at h1
+                  have hv0 : vcc (Tree.mk cd ck) = 0 := by
+                    have h2 := h1.1
+                    simp only [Tree.data, hce, if_true] at h2
+                    have hvf : cd.visible = false := by simpa using hrel'
+                    simpa [hvf] using h2
+                  have : relevantChildCount (Tree.mk cd ck) true = 0 := by
+                    unfold vcc at hv0
+                    unfold relevantChildCount
+                    cases ck with
+                    | nil => simp [Tree.kids]
+                    | cons a b => simpa [Tree.kids, Tree.data] using hv0
+                  omega
+              simp only [hnx, Bool.false_eq_true, if_false]
+              have hsidx : (if (si + 1 == 0) = true then fieldNameForChildPort.u32maxN else si + 1 - 1) = si := by simp
+              rw [hsidx, fieldFromLanguage_eq, hrt, data_mk]
+              have hxc : hiddenExtraOKKids lang c.kids c.data.productionId 0 = true := by
+                obtain ⟨cd, ck⟩ := c
+                have h1 := hxk.1
+                unfold hiddenExtraOK at h1
+                simp only [Bool.and_eq_true] at h1
+                simpa [Tree.kids, Tree.data] using h1.2
+              have ihgo := fn_go_spec lang f
+                { t := c, alias := lang.aliasAt d.productionId si, id := slotId d.addr kids.length k,
+                  start := (if k > 0 then length_add pos c.data.padding else pos) }
+                (ci - index) (directFields lang d.productionId si :: outer) (some d.symbol) hsk.1 hshk.1 hxc hszc
+              rw [chainField_cons] at ihgo
+              simp only [hnx, Bool.false_eq_true, if_false] at hlen
+              generalize (directFields lang d.productionId si).head? = o at ihgo ⊢
+              cases o with
+              | none =>
+                simp only [firstSome] at ihgo
+                dsimp only
+                rw [ihgo]
+                simp only [fieldAt]
+                rw [List.getElem?_append_left (by rw [hlen, ← hgc]; exact hin)]
+              | some v =>
+                simp only [firstSome] at ihgo
+                dsimp only
+                rw [ihgo]
+                simp only [fieldAt]
+                rw [List.getElem?_append_left (by rw [hlen, ← hgc]; exact hin)]
+            · simp only [hin, if_false]
+              rw [ih _ _ _ (index + relevantChildCount c true) (by omega) hsk.2 hshk.2 hxk.2 hszr]
+              simp only [fieldAt]
+              rw [List.getElem?_append_right (by rw [hlen, ← hgc]; omega), hlen, ← hgc]
+              congr 2
+              omega
+      have hszk : Tree.sizeList kids ≤ f := by unfold Tree.size at hsz; omega
+      have := scan kids result.start 0 0 0 (Nat.zero_le _) hs.2.2 hsh.2 hx hszk
+      simpa using this
+
+
+/-- `field_name_for_child_spec`: for every summarized parser-shaped subtree in which hidden extras
+have no visible children, the port of `ts_node_field_name_for_child(self, i)` returns the field the
+chain of the `i`-th child shows (`chainField`), where the chains are exactly the `fields` that
+`flatten` records for the children of the node (`flattenKids_fields`). -/
+theorem field_name_for_child_spec (lang : Lang) (self : NodeRef) (i fuel : Nat) (ps : Option Nat)
+    (hs : Summarized lang self.t) (hsh : shapeOK ps self.t = true)
+    (hx : hiddenExtraOKKids lang self.t.kids self.t.data.productionId 0 = true) (hf : self.t.size ≤ fuel) :
+    fieldNameForChildPort lang fuel self i true = fieldAt (enumF lang self.t []) i := by
+  unfold fieldNameForChildPort
+  have := fn_go_spec lang fuel self i [] ps hs hsh hx hf
+  simpa [chainField] using this
 
 end TsVerif.C06
 
